@@ -115,6 +115,7 @@ fn exec_line(ctx: &mut Ctx, line: &str) -> String {
         "c12" => {
             let (v, m) = parse_line(line);
             if second == "inflate" { c12::exec_inflate(&m) }
+            else if second == "zinflate" { c12::exec_zinflate(&m) }
             else if second == "cfg" {
                 ctx.c12 = None;
                 match util::guarded_res(|| c12::open_cfg(&m)) { Ok(c) => { ctx.c12 = Some(c); "ok".into() } Err(e) => { if std::env::var("VERIF_ERR_MSG").is_ok() { eprintln!("ERR: {}", e); } "err-open".into() } }
@@ -145,6 +146,8 @@ fn main() {
     let lines: Vec<String> = match argv[0].as_str() {
         "run" => {
             let prop = a.rest.get(0).cloned().unwrap_or_default();
+            // the generators whose judgement does not depend on fabricated data opt in to packbits bit ranges
+            if matches!(prop.as_str(), "c01" | "c02" | "c06" | "c07") { arr::EXT_PACKBITS.store(true, std::sync::atomic::Ordering::Relaxed); }
             match prop.as_str() {
                 "c01" => c01::generate(&a.tier, a.seed),
                 "c02" => c02::generate(&a.tier, a.seed),
